@@ -133,8 +133,17 @@ fn scenario(seed: u64, variant: &str, trigger: &str, rep: &Report) -> Result<(),
     let b1 = cell.add_mock("pb.g1");
     let a2 = cell.add_mock("pa.g2");
     let c1 = cell.add_mock("pc.g1");
+    // half the scenarios with client TLS configured in [general] (both the old and the new file)
+    let tls = rng.chance(1, 2) && std::path::Path::new("/verif/fixtures/tls/cert.pem").exists();
+    if tls {
+        rep.count("scenarios_with_tls_configured", 1);
+    }
     let mk = |cell: &Cell, pa_mock: usize, with_pb: bool, with_pc: bool, pa_size: u32, pa_mode: &str, ban_time: u32, autoreload: bool| -> Cfg {
         let mut cfg = Cfg::new();
+        if tls {
+            cfg.gset("tls_certificate", "\"/verif/fixtures/tls/cert.pem\"");
+            cfg.gset("tls_private_key", "\"/verif/fixtures/tls/key.pem\"");
+        }
         cfg.gset("ban_time", &ban_time.to_string());
         cfg.gset("connect_timeout", "2000");
         if autoreload {
